@@ -300,7 +300,7 @@ func genGroup(r *rand.Rand, idx int) []*Case {
 
 func run(m *mon.M) {
 	r := m.Rand("groups")
-	groups := m.N(230, 3800)
+	groups := m.N(800, 6000)
 	// the fixed texts are spread over the shards
 	for g := 0; g < groups; g++ {
 		idx := g*m.NShards + m.Shard
